@@ -60,7 +60,8 @@ def generate(seed, tier='quick'):
     kind = rng.choice(['tls-server', 'tls-server', 'auth', 'auth',
                        'tls-client'])
     scn = {'property': ID, 'harness': 'session', 'seed': seed, 'kind': kind,
-           'sched_seed': rng.getrandbits(48)}
+           'sched_seed': rng.getrandbits(48),
+           'bystander': rng.random() < 0.25}
     if kind == 'tls-server':
         scn['cfg'] = {'tls': True, 'auth': False, 'verdicts': {}}
         pre = ['EHLO c.example']
@@ -155,6 +156,11 @@ def execute(scn, debug=False):
                 'msg': 'session did not finish: %s' % world.blocked_report()})
         elif not g.successful():
             world.harness_errors.append('driver died: %r' % (g.exception,))
+        if ok and result.get('by') and not result['violations']:
+            msg = hs.bystander_verdict(world, result['by'][0], result['by'][1],
+                                       scn['cfg'])
+            if msg:
+                _bad(result, 'C08/cross-session', msg)
         return {
             'violations': result['violations'][:3], 'digest': world.digest(),
             'nontrivial': result['nontrivial'],
@@ -192,6 +198,9 @@ def _tls_server(world, scn, result):
                           b_opts={'latency': net.LAT_SMALL})
     trace = hs.Trace(world, 's')
     srv = hs.start_server(world, trace, scn['cfg'], b, a.getpeername())
+    if scn.get('bystander') and not scn['cfg'].get('tls_immediately'):
+        result['by'] = (trace, hs.start_bystander(world, trace))
+        world.probe('bystander-session')
     cl = LineClient(world, a)
     codes = result.setdefault('codes', [])
     r = cl.read_reply()
@@ -304,6 +313,9 @@ def _auth(world, scn, result):
                           b_opts={'latency': net.LAT_SMALL})
     trace = hs.Trace(world, 's')
     srv = hs.start_server(world, trace, scn['cfg'], b, a.getpeername())
+    if scn.get('bystander') and not scn['cfg'].get('tls_immediately'):
+        result['by'] = (trace, hs.start_bystander(world, trace))
+        world.probe('bystander-session')
     sock = a
     enc = False
     if scn['tls_mode'] == 'immediate':
